@@ -37,7 +37,7 @@ CHECKS = {
     "C13": dict(level="model_checking", technique="SX symbolic-number execution; paths discovered from seeded arrangements, each decided universally by z3 over nonlinear real arithmetic",
                 text="Connector endpoints between two symbolic boxes: named locations exact, otherwise a minimal-distance candidate pair; h/v lines through the overlap middle; corner polylines rectilinear and perpendicular.",
                 note=SX_NOTE + "Path coverage of the nonlinear templates is the set of discovered paths (exhaustiveness attempted and reported).", ref="§5 C13"),
-    "C14": dict(level="model_checking", technique="SX execution with uninterpreted float operations (EUF) + z3: implementation computes the same operation tree as an independent reference evaluator",
+    "C14": dict(level="model_checking", technique="SX execution with uninterpreted float operations (EUF) + z3: implementation computes the same operation tree as an independent reference evaluator; ground single-precision, arity and single-evaluation cases are decided on the unmodified build's output",
                 text="Expression trees with symbolic operands: the value produced equals the reference precedence-climbing evaluation as a term over uninterpreted IEEE operations, hence bit-identical for every input.",
                 note=SX_NOTE + "Single-evaluation of random() is a ground side-check, not the basis of the claim. Expression *syntax* space is enumerated, not symbolic.", ref="§5 C14"),
     "C15": dict(level="model_checking", technique="SX symbolic-number execution + z3: each definition carries a distinct symbolic number; resolution = validity of out_term = expected_var",
